@@ -11,7 +11,7 @@ set_option linter.unusedSectionVars false
 
 * `tet_project_nearest` — for EVERY tetrahedron (degenerate or not), query point and flag: whenever the model of
   `Tetrahedron::project_local_point_and_get_location` returns a vertex / edge / face location, the flag is `false`, the returned
-  point is a member of the tetrahedron (`TetMem`, convex combination of the four vertices) and no member is closer to the query
+  point is a boundary point of the tetrahedron (`TetBdry`: a convex combination of the four vertices with a zero weight; `tetBdry_mem`: a member) and no member is closer to the query
   point.  This goes through all 4 vertex tests, 6 `check_edge` calls and 4 `check_face` calls with the arguments the code passes
   (normals reused with flipped signs, determinants reused in permuted order).
 * `tet_project_solid` — the only other non-panicking answer is `(true, pt)` tagged `OnSolid`, and only for `solid = true`.
@@ -23,6 +23,21 @@ namespace C05
 open Model
 
 variable {K : Type} [Field K] [LinearOrder K] [IsStrictOrderedRing K] (sq : K → K)
+
+/-- boundary of the tetrahedron by definition: a convex combination of the four vertices with (at least) one zero weight,
+i.e. a point of one of the four face triangles -/
+def TetBdry (s : Tetrahedron K) (q : V3 K) : Prop :=
+  ∃ t0 t1 t2 t3 : K, 0 ≤ t0 ∧ 0 ≤ t1 ∧ 0 ≤ t2 ∧ 0 ≤ t3 ∧ t0 + t1 + t2 + t3 = 1 ∧ (t0 = 0 ∨ t1 = 0 ∨ t2 = 0 ∨ t3 = 0) ∧
+    q.x = t0 * s.a.x + t1 * s.b.x + t2 * s.c.x + t3 * s.d.x ∧
+    q.y = t0 * s.a.y + t1 * s.b.y + t2 * s.c.y + t3 * s.d.y ∧
+    q.z = t0 * s.a.z + t1 * s.b.z + t2 * s.c.z + t3 * s.d.z
+
+/-- boundary points are members -/
+theorem tetBdry_mem (s : Tetrahedron K) (q : V3 K) (h : TetBdry s q) : TetMem s q := by
+  obtain ⟨t0, t1, t2, t3, h0, h1, h2, h3, hsum, _, hx, hy, hz⟩ := h
+  have e : t0 = 1 - t1 - t2 - t3 := by linarith
+  subst e
+  exact ⟨t1, t2, t3, h1, h2, h3, by linarith, by rw [hx]; ring, by rw [hy]; ring, by rw [hz]; ring⟩
 
 private theorem nearest_mono (p v q q' : V3 K) (h : dist2K p v ≤ dist2K p q') (e : q = q') : dist2K p v ≤ dist2K p q := by
   rw [e]; exact h
@@ -36,8 +51,8 @@ private theorem edge_finish (s : Tetrahedron K) (pt : V3 K) (i : Nat) (A AP AB w
     (h : letI := fieldNum K sq; (tetCheckEdge i A n1 n2 AP AB (AP.dot AB) y).2.2 = some r)
     (hrep : letI := fieldNum K sq; ∀ q, TetMem s q → ∃ β γ δ : K, 0 ≤ γ ∧ 0 ≤ δ ∧
       q = ((A.add (AB.smul β)).add (w1.smul γ)).add (w2.smul δ))
-    (hseg : letI := fieldNum K sq; ∀ u : K, 0 ≤ u → u ≤ 1 → TetMem s (A.add (AB.smul u))) :
-    r.1.inside = false ∧ TetMem s r.1.pt ∧ ∀ q, TetMem s q → dist2K pt r.1.pt ≤ dist2K pt q := by
+    (hseg : letI := fieldNum K sq; ∀ u : K, 0 ≤ u → u ≤ 1 → TetBdry s (A.add (AB.smul u))) :
+    r.1.inside = false ∧ TetBdry s r.1.pt ∧ ∀ q, TetMem s q → dist2K pt r.1.pt ≤ dist2K pt q := by
   letI := fieldNum K sq
   subst hn1 hn2 hy hpt
   obtain ⟨u, hu0, hu1, hp, _, hins, _, _, _⟩ := tet_edge_sound sq i A AP AB w1 w2 r h
@@ -60,8 +75,8 @@ private theorem face_finish (hs : LawfulSqrt sq) (s : Tetrahedron K) (pt : V3 K)
     (hrep : letI := fieldNum K sq; ∀ q, TetMem s q → ∃ β γ δ : K, 0 ≤ δ ∧
       q = ((A.add (AB.smul β)).add (AC.smul γ)).add (AD.smul δ))
     (htri : letI := fieldNum K sq; ∀ b0 b1 b2 : K, 0 ≤ b0 → 0 ≤ b1 → 0 ≤ b2 → b0 + b1 + b2 = 1 →
-      TetMem s (((A.smul b0).add ((A.add AB).smul b1)).add ((A.add AC).smul b2))) :
-    pp.inside = false ∧ TetMem s pp.pt ∧ ∀ q, TetMem s q → dist2K pt pp.pt ≤ dist2K pt q := by
+      TetBdry s (((A.smul b0).add ((A.add AB).smul b1)).add ((A.add AC).smul b2))) :
+    pp.inside = false ∧ TetBdry s pp.pt ∧ ∀ q, TetMem s q → dist2K pt pp.pt ≤ dist2K pt q := by
   letI := fieldNum K sq
   subst hB hC hBP hCP hd1 hd2 hd3 hpt
   obtain ⟨b0, b1, b2, h0, h1, h2, hsum, hres, _, _, _⟩ := tet_face_sound sq hs i A AP AB AC AD _ h
@@ -91,31 +106,30 @@ private theorem v3_eq (p q : V3 K) (hx : p.x = q.x) (hy : p.y = q.y) (hz : p.z =
 macro "v3ring" : tactic =>
   `(tactic| first | rfl | (apply v3_eq <;> simp only [V3.cross, V3.neg, V3.sub, V3.add, V3.smul] <;> ring))
 
-/-- membership from barycentric weights -/
-private theorem tetMem_bary (s : Tetrahedron K) (t0 t1 t2 t3 : K) (q : V3 K)
+/-- boundary membership from barycentric weights -/
+private theorem tetBdry_bary (s : Tetrahedron K) (t0 t1 t2 t3 : K) (q : V3 K)
     (h0 : 0 ≤ t0) (h1 : 0 ≤ t1) (h2 : 0 ≤ t2) (h3 : 0 ≤ t3) (hsum : t0 + t1 + t2 + t3 = 1)
+    (hzero : t0 = 0 ∨ t1 = 0 ∨ t2 = 0 ∨ t3 = 0)
     (hx : q.x = t0 * s.a.x + t1 * s.b.x + t2 * s.c.x + t3 * s.d.x)
     (hy : q.y = t0 * s.a.y + t1 * s.b.y + t2 * s.c.y + t3 * s.d.y)
-    (hz : q.z = t0 * s.a.z + t1 * s.b.z + t2 * s.c.z + t3 * s.d.z) : TetMem s q := by
-  have e : t0 = 1 - t1 - t2 - t3 := by linarith
-  subst e
-  exact ⟨t1, t2, t3, h1, h2, h3, by linarith, by rw [hx]; ring, by rw [hy]; ring, by rw [hz]; ring⟩
+    (hz : q.z = t0 * s.a.z + t1 * s.b.z + t2 * s.c.z + t3 * s.d.z) : TetBdry s q :=
+  ⟨t0, t1, t2, t3, h0, h1, h2, h3, hsum, hzero, hx, hy, hz⟩
 
-private theorem tetMem_a (s : Tetrahedron K) : TetMem s s.a :=
-  tetMem_bary s 1 0 0 0 _ (by norm_num) le_rfl le_rfl le_rfl (by ring) (by ring) (by ring) (by ring)
-private theorem tetMem_b (s : Tetrahedron K) : TetMem s s.b :=
-  tetMem_bary s 0 1 0 0 _ le_rfl (by norm_num) le_rfl le_rfl (by ring) (by ring) (by ring) (by ring)
-private theorem tetMem_c (s : Tetrahedron K) : TetMem s s.c :=
-  tetMem_bary s 0 0 1 0 _ le_rfl le_rfl (by norm_num) le_rfl (by ring) (by ring) (by ring) (by ring)
-private theorem tetMem_d (s : Tetrahedron K) : TetMem s s.d :=
-  tetMem_bary s 0 0 0 1 _ le_rfl le_rfl le_rfl (by norm_num) (by ring) (by ring) (by ring) (by ring)
+private theorem tetMem_a (s : Tetrahedron K) : TetBdry s s.a :=
+  tetBdry_bary s 1 0 0 0 _ (by norm_num) le_rfl le_rfl le_rfl (by ring) (by simp) (by ring) (by ring) (by ring)
+private theorem tetMem_b (s : Tetrahedron K) : TetBdry s s.b :=
+  tetBdry_bary s 0 1 0 0 _ le_rfl (by norm_num) le_rfl le_rfl (by ring) (by simp) (by ring) (by ring) (by ring)
+private theorem tetMem_c (s : Tetrahedron K) : TetBdry s s.c :=
+  tetBdry_bary s 0 0 1 0 _ le_rfl le_rfl (by norm_num) le_rfl (by ring) (by simp) (by ring) (by ring) (by ring)
+private theorem tetMem_d (s : Tetrahedron K) : TetBdry s s.d :=
+  tetBdry_bary s 0 0 0 1 _ le_rfl le_rfl le_rfl (by norm_num) (by ring) (by simp) (by ring) (by ring) (by ring)
 
 set_option maxHeartbeats 1600000 in
-/-- every vertex / edge / face answer of the tetrahedron projection is a member of the tetrahedron, flagged `false`, and no
-member is closer to the query point -/
+/-- every vertex / edge / face answer of the tetrahedron projection is a point of the boundary of the tetrahedron, flagged
+`false`, and no member is closer to the query point -/
 theorem tet_project_nearest (hs : LawfulSqrt sq) (s : Tetrahedron K) (pt : V3 K) (solid : Bool) (pp : PP3 K) (l : TetLoc K)
     (h : letI := fieldNum K sq; s.projectLoc pt solid = TetRes.ok pp l) (hl : l ≠ TetLoc.solid) :
-    pp.inside = false ∧ TetMem s pp.pt ∧ ∀ q, TetMem s q → dist2K pt pp.pt ≤ dist2K pt q := by
+    pp.inside = false ∧ TetBdry s pp.pt ∧ ∀ q, TetMem s q → dist2K pt pp.pt ≤ dist2K pt q := by
   letI := fieldNum K sq
   simp only [Tetrahedron.projectLoc, edge_fst sq, edge_snd sq] at h
   split at h
@@ -157,7 +171,7 @@ theorem tet_project_nearest (hs : LawfulSqrt sq) (s : Tetrahedron K) (pt : V3 K)
       refine ⟨β, γ, δ, by linarith, by linarith, ?_⟩
       apply v3_eq <;> simp only [V3.add, V3.smul, V3.sub, V3.neg] <;> first | (rw [hx]; ring) | (rw [hy]; ring) | (rw [hz]; ring)
     · intro u hu0 hu1
-      refine tetMem_bary s (1 - u) u 0 0 _ (by linarith) (by linarith) (by linarith) (by linarith) (by ring) ?_ ?_ ?_ <;>
+      refine tetBdry_bary s (1 - u) u 0 0 _ (by linarith) (by linarith) (by linarith) (by linarith) (by ring) (by simp) ?_ ?_ ?_ <;>
         simp only [V3.add, V3.smul, V3.sub] <;> ring
   split at h
   · rename_i r he
@@ -170,7 +184,7 @@ theorem tet_project_nearest (hs : LawfulSqrt sq) (s : Tetrahedron K) (pt : V3 K)
       refine ⟨γ, δ, β, by linarith, by linarith, ?_⟩
       apply v3_eq <;> simp only [V3.add, V3.smul, V3.sub, V3.neg] <;> first | (rw [hx]; ring) | (rw [hy]; ring) | (rw [hz]; ring)
     · intro u hu0 hu1
-      refine tetMem_bary s (1 - u) 0 u 0 _ (by linarith) (by linarith) (by linarith) (by linarith) (by ring) ?_ ?_ ?_ <;>
+      refine tetBdry_bary s (1 - u) 0 u 0 _ (by linarith) (by linarith) (by linarith) (by linarith) (by ring) (by simp) ?_ ?_ ?_ <;>
         simp only [V3.add, V3.smul, V3.sub] <;> ring
   split at h
   · rename_i r he
@@ -183,7 +197,7 @@ theorem tet_project_nearest (hs : LawfulSqrt sq) (s : Tetrahedron K) (pt : V3 K)
       refine ⟨δ, β, γ, by linarith, by linarith, ?_⟩
       apply v3_eq <;> simp only [V3.add, V3.smul, V3.sub, V3.neg] <;> first | (rw [hx]; ring) | (rw [hy]; ring) | (rw [hz]; ring)
     · intro u hu0 hu1
-      refine tetMem_bary s (1 - u) 0 0 u _ (by linarith) (by linarith) (by linarith) (by linarith) (by ring) ?_ ?_ ?_ <;>
+      refine tetBdry_bary s (1 - u) 0 0 u _ (by linarith) (by linarith) (by linarith) (by linarith) (by ring) (by simp) ?_ ?_ ?_ <;>
         simp only [V3.add, V3.smul, V3.sub] <;> ring
   split at h
   · rename_i r he
@@ -196,7 +210,7 @@ theorem tet_project_nearest (hs : LawfulSqrt sq) (s : Tetrahedron K) (pt : V3 K)
       refine ⟨γ, (1 - β - γ - δ), δ, by linarith, by linarith, ?_⟩
       apply v3_eq <;> simp only [V3.add, V3.smul, V3.sub, V3.neg] <;> first | (rw [hx]; ring) | (rw [hy]; ring) | (rw [hz]; ring)
     · intro u hu0 hu1
-      refine tetMem_bary s 0 (1 - u) u 0 _ (by linarith) (by linarith) (by linarith) (by linarith) (by ring) ?_ ?_ ?_ <;>
+      refine tetBdry_bary s 0 (1 - u) u 0 _ (by linarith) (by linarith) (by linarith) (by linarith) (by ring) (by simp) ?_ ?_ ?_ <;>
         simp only [V3.add, V3.smul, V3.sub] <;> ring
   split at h
   · rename_i r he
@@ -209,7 +223,7 @@ theorem tet_project_nearest (hs : LawfulSqrt sq) (s : Tetrahedron K) (pt : V3 K)
       refine ⟨δ, γ, (1 - β - γ - δ), by linarith, by linarith, ?_⟩
       apply v3_eq <;> simp only [V3.add, V3.smul, V3.sub, V3.neg] <;> first | (rw [hx]; ring) | (rw [hy]; ring) | (rw [hz]; ring)
     · intro u hu0 hu1
-      refine tetMem_bary s 0 (1 - u) 0 u _ (by linarith) (by linarith) (by linarith) (by linarith) (by ring) ?_ ?_ ?_ <;>
+      refine tetBdry_bary s 0 (1 - u) 0 u _ (by linarith) (by linarith) (by linarith) (by linarith) (by ring) (by simp) ?_ ?_ ?_ <;>
         simp only [V3.add, V3.smul, V3.sub] <;> ring
   split at h
   · rename_i r he
@@ -222,7 +236,7 @@ theorem tet_project_nearest (hs : LawfulSqrt sq) (s : Tetrahedron K) (pt : V3 K)
       refine ⟨δ, (1 - β - γ - δ), β, by linarith, by linarith, ?_⟩
       apply v3_eq <;> simp only [V3.add, V3.smul, V3.sub, V3.neg] <;> first | (rw [hx]; ring) | (rw [hy]; ring) | (rw [hz]; ring)
     · intro u hu0 hu1
-      refine tetMem_bary s 0 0 (1 - u) u _ (by linarith) (by linarith) (by linarith) (by linarith) (by ring) ?_ ?_ ?_ <;>
+      refine tetBdry_bary s 0 0 (1 - u) u _ (by linarith) (by linarith) (by linarith) (by linarith) (by ring) (by simp) ?_ ?_ ?_ <;>
         simp only [V3.add, V3.smul, V3.sub] <;> ring
   split at h
   · rename_i r hf
@@ -236,7 +250,7 @@ theorem tet_project_nearest (hs : LawfulSqrt sq) (s : Tetrahedron K) (pt : V3 K)
       refine ⟨β, γ, δ, by linarith, ?_⟩
       apply v3_eq <;> simp only [V3.add, V3.smul, V3.sub, V3.neg] <;> first | (rw [hx]; ring) | (rw [hy]; ring) | (rw [hz]; ring)
     · intro b0 b1 b2 h0 h1 h2 hsum
-      refine tetMem_bary s b0 b1 b2 0 _ (by linarith) (by linarith) (by linarith) (by linarith) (by linarith) ?_ ?_ ?_ <;>
+      refine tetBdry_bary s b0 b1 b2 0 _ (by linarith) (by linarith) (by linarith) (by linarith) (by linarith) (by simp) ?_ ?_ ?_ <;>
         simp only [V3.add, V3.smul, V3.sub] <;> ring
   split at h
   · rename_i r hf
@@ -251,7 +265,7 @@ theorem tet_project_nearest (hs : LawfulSqrt sq) (s : Tetrahedron K) (pt : V3 K)
       refine ⟨β, δ, γ, by linarith, ?_⟩
       apply v3_eq <;> simp only [V3.add, V3.smul, V3.sub, V3.neg] <;> first | (rw [hx]; ring) | (rw [hy]; ring) | (rw [hz]; ring)
     · intro b0 b1 b2 h0 h1 h2 hsum
-      refine tetMem_bary s b0 b1 0 b2 _ (by linarith) (by linarith) (by linarith) (by linarith) (by linarith) ?_ ?_ ?_ <;>
+      refine tetBdry_bary s b0 b1 0 b2 _ (by linarith) (by linarith) (by linarith) (by linarith) (by linarith) (by simp) ?_ ?_ ?_ <;>
         simp only [V3.add, V3.smul, V3.sub] <;> ring
   split at h
   · rename_i r hf
@@ -265,7 +279,7 @@ theorem tet_project_nearest (hs : LawfulSqrt sq) (s : Tetrahedron K) (pt : V3 K)
       refine ⟨γ, δ, β, by linarith, ?_⟩
       apply v3_eq <;> simp only [V3.add, V3.smul, V3.sub, V3.neg] <;> first | (rw [hx]; ring) | (rw [hy]; ring) | (rw [hz]; ring)
     · intro b0 b1 b2 h0 h1 h2 hsum
-      refine tetMem_bary s b0 0 b1 b2 _ (by linarith) (by linarith) (by linarith) (by linarith) (by linarith) ?_ ?_ ?_ <;>
+      refine tetBdry_bary s b0 0 b1 b2 _ (by linarith) (by linarith) (by linarith) (by linarith) (by linarith) (by simp) ?_ ?_ ?_ <;>
         simp only [V3.add, V3.smul, V3.sub] <;> ring
   split at h
   · rename_i r hf
@@ -279,7 +293,7 @@ theorem tet_project_nearest (hs : LawfulSqrt sq) (s : Tetrahedron K) (pt : V3 K)
       refine ⟨γ, δ, (1 - β - γ - δ), by linarith, ?_⟩
       apply v3_eq <;> simp only [V3.add, V3.smul, V3.sub, V3.neg] <;> first | (rw [hx]; ring) | (rw [hy]; ring) | (rw [hz]; ring)
     · intro b0 b1 b2 h0 h1 h2 hsum
-      refine tetMem_bary s 0 b0 b1 b2 _ (by linarith) (by linarith) (by linarith) (by linarith) (by linarith) ?_ ?_ ?_ <;>
+      refine tetBdry_bary s 0 b0 b1 b2 _ (by linarith) (by linarith) (by linarith) (by linarith) (by linarith) (by simp) ?_ ?_ ?_ <;>
         simp only [V3.add, V3.smul, V3.sub] <;> ring
   split at h
   · exact absurd h (by simp)
